@@ -614,7 +614,7 @@ pub fn run(ctx: &Ctx) {
             }
         }
     }
-    // LARGE keyrings (beyond 1 MiB; thorough beyond 16 MiB): the sender's entry - and, separately, the recipient's - is
+    // LARGE keyrings (beyond 1 MiB; thorough about 5 MiB - the tool's duplicate check is quadratic, 190 000 entries take minutes): the sender's entry - and, separately, the recipient's - is
     // the very last one. The outcome is the same as with a three-entry keyring: exit 0, complete plaintext, sender named;
     // with -k and with KESTREL_KEYRING
     {
@@ -623,7 +623,7 @@ pub fn run(ctx: &Ctx) {
         let pt = &pts[1].1;
         let f = refspec::encode_key_file(&a.sk, &a.pk, &b.pk, &rng.arr32(), &rng.arr32(), pt, &[pt.len()]).unwrap();
         std::fs::write(dir.join("f.ktl"), &f).unwrap();
-        for (size_name, contacts) in ctx.tier.pick(vec![("about 1.2 MiB", 13_500usize)], vec![("about 1.2 MiB", 13_500usize), ("about 17 MiB", 190_000)]) {
+        for (size_name, contacts) in ctx.tier.pick(vec![("about 1.2 MiB", 13_500usize)], vec![("about 1.2 MiB", 13_500usize), ("about 5 MiB", 56_000)]) {
             let mut filler = String::new();
             for i in 0..contacts {
                 filler.push_str(&format!("[Key]\nName = contact-{:06}\nPublicKey = {}\n\n", i, refspec::encode_pk(&refspec::pubkey_of(&rng.arr32()))));
